@@ -38,6 +38,11 @@ def run(ctx):
     for ivl in (4, 12, 16, 20, 32):
         for fam in (6, 7, 8):
             cases.append(mk(ivf=fam, ivl=ivl, al=5, pl=21))     # IVs ending 00000001 / 00000000 / 00000002 (look like a counter block)
+    for al in (33, 48, 49, 80):
+        cases.append(mk(af=5, al=al, pl=21))                # additional data with an all-zero 16-byte block behind a non-zero one
+        cases.append(mk(af=5, al=al, pf=5, pl=al))          # ... and the same shape as plaintext
+    for ivl in (8191, 8192, 8200):
+        cases.append(mk(ivl=ivl, al=5, pl=21))              # IV lengths whose bit count needs a third byte of the length block
     cases.append(mk(ivf=1, al=3, pl=40, tamper=1))          # 12-byte IV, all 0xff
     cases.append(mk(ivf=3, al=0, pl=33))                    # 12-byte IV ending ff ff ff ff
     cases.append(mk(ivf=2, al=20, pl=20))                   # all-zero IV (the repository test's)
@@ -154,4 +159,8 @@ def bytes_of(f, n, salt):
         return [255] * n
     if f == 2:
         return [0] * n
+    if f == 5:
+        return [i if i <= 16 else 0 if i <= 32 else i % 251 for i in range(1, n + 1)]
+    if f in (6, 7, 8):
+        return [({6: 1, 7: 0, 8: 2}[f] if i == n else 0) if i > n - 4 else (i * 13 + salt) % 256 for i in range(1, n + 1)]
     return [255 if i > n - 4 else (i * 7 + salt) % 256 for i in range(1, n + 1)]
